@@ -30,7 +30,7 @@ func (m maxDistance) negative() distance        { return maxDistance(s1.InfChord
 func (m maxDistance) infinity() distance        { return maxDistance(s1.NegativeChordAngle) }
 func (m maxDistance) less(other distance) bool  { return m.chordAngle() > other.chordAngle() }
 func (m maxDistance) sub(other distance) distance {
-	return maxDistance(m.chordAngle() + other.chordAngle())
+	return maxDistance(math.Min(float64(s1.StraightChordAngle), float64(m.chordAngle()+other.chordAngle())))
 }
 func (m maxDistance) chordAngleBound() s1.ChordAngle {
 	return s1.StraightChordAngle - m.chordAngle()
